@@ -9,6 +9,7 @@ import SchedVerif.Model.Conc.Locks
 import SchedVerif.Spec.Linearize
 import SchedVerif.Lemmas.Linearize
 import SchedVerif.Lemmas.AtomicPoints
+import SchedVerif.Lemmas.Reduction
 namespace SV
 open SV.L2
 
@@ -645,5 +646,73 @@ example : linearizableB [] [0, 1] [1]
   refine ⟨[0, 1], List.Perm.refl _, ?_, ?_⟩
   · simp [RespectsRT]
   · exact ⟨_, _, rfl, rfl, _, _, rfl, rfl, rfl⟩
+
+/-! ### lock-protected read-compute-write sections ARE atomic points (reduction)
+
+  `atomic_points_linearizable` assumes that every record is computed at one point from the registry
+  the previous point left.  The code does not work like that: `delete_jobs` evaluates `self.__jobs`
+  twice and rebinds it, `__schedule` reads and adds, a worker reads `attempts` and stores
+  `attempts + 1` - several bytecodes, with thread switches possible between any two of them.  The L3
+  machine (Model/Conc/Shared.lean) executes exactly that: reads into thread-local buffers, a later
+  commit computed from the BUFFERED values.  The theorems below show that, for any number of threads,
+  any programs and any schedule, as long as every program takes the lock around its reads-for-update
+  and writes (`progOK`), the machine cannot be told apart from the one in which each commit reads the
+  shared value at the moment it commits - so each section is one atomic point, and a whole run is the
+  sequential execution of its points in the order of their commits. -/
+
+open SV.L3 in
+/-- a system in which nobody holds the lock and every program follows the discipline satisfies the
+    invariant (the initial state of every run) -/
+theorem C14.locked_initial {σ ο : Type} (x : σ) (thr : List (L3.Thread σ ο))
+    (h : ∀ th ∈ thr, L3.progOK false th.prog) : L3.Inv { st := x, owner := none, thr := thr } := by
+  constructor
+  · intro j th hj
+    have hm : th ∈ thr := List.mem_of_getElem? hj
+    simpa using h th hm
+  · intro i th ho; cases ho
+
+/-- **no lost update, no torn read**: for every schedule, the machine that computes each write from
+    the values it read earlier (as the code does) ends in the same state - shared value, lock, every
+    thread's remaining program and outputs - as the machine in which each write is computed from the
+    shared value at the instant of the write -/
+theorem C14.locked_sections_atomic {σ ο : Type} (s : L3.Sys σ ο) (hI : L3.Inv s) (sched : List Nat) :
+    L3.run sched s = L3.runA sched s := L3.run_eq_runA sched s hI
+
+/-- **a run is the sequential execution of its atomic points** (whole locked sections and single
+    unlocked reads) in the order in which they were committed: final shared value and, thread by
+    thread, every result returned -/
+theorem C14.locked_sections_sequential {σ ο : Type} (s : L3.Sys σ ο) (hI : L3.Inv s) (sched : List Nat) :
+    (L3.run sched s).st = (L3.seqRun s.st (L3.events sched s)).1 ∧
+    ∀ j, L3.outsOf (L3.run sched s) j = L3.outsOf s j ++ L3.outsFor j (L3.seqRun s.st (L3.events sched s)).2 :=
+  L3.run_eq_seq sched s hI
+
+/-- the invariant (hence both statements) holds in every reachable state -/
+theorem C14.locked_invariant_reachable {σ ο : Type} (s : L3.Sys σ ο) (hI : L3.Inv s) (sched : List Nat) :
+    L3.Inv (L3.run sched s) := L3.run_inv sched s hI
+
+/-! non-vacuity, and what the discipline is needed for.  Shared value = list of job keys.
+    `delLike k` = `delete_jobs`-style read-modify-write "remove k": read the set, compute set − {k}
+    from what was read, rebind.  With the lock the interleaving [0,1,0,1,…] removes both keys; the
+    same two programs WITHOUT acq/rel lose one update under the same schedule (thread 1 writes back
+    what it read before thread 0's write). -/
+def delLike (k : Nat) : L3.Step (List Nat) Nat :=
+  .commit (fun bufs => ((bufs.headD []).filter (· != k), 0))
+
+def lockedDel (k : Nat) : L3.Thread (List Nat) Nat := { prog := [.acq, .snap, delLike k, .rel], buf := [], outs := [] }
+def rawDel (k : Nat) : L3.Thread (List Nat) Nat := { prog := [.snap, delLike k], buf := [], outs := [] }
+
+example : L3.Inv ({ st := [1, 2, 3], owner := none, thr := [lockedDel 1, lockedDel 2] } : L3.Sys (List Nat) Nat) :=
+  C14.locked_initial _ _ (by intro th h; simp at h; rcases h with rfl | rfl <;> simp [lockedDel, L3.progOK, delLike])
+
+example : (L3.run [0, 1, 0, 1, 0, 1, 0, 1, 1, 1, 1] ({ st := [1, 2, 3], owner := none, thr := [lockedDel 1, lockedDel 2] } : L3.Sys (List Nat) Nat)).st = [3] := by
+  decide
+
+/-- the lost update the discipline excludes: both threads read [1,2,3]; thread 0 writes [2,3];
+    thread 1 writes back [1,3] computed from its stale read -/
+example : (L3.run [0, 1, 0, 1] ({ st := [1, 2, 3], owner := none, thr := [rawDel 1, rawDel 2] } : L3.Sys (List Nat) Nat)).st = [1, 3] := by
+  decide
+
+example : (L3.runA [0, 1, 0, 1] ({ st := [1, 2, 3], owner := none, thr := [rawDel 1, rawDel 2] } : L3.Sys (List Nat) Nat)).st = [3] := by
+  decide
 
 end SV
